@@ -10,6 +10,8 @@
 #include <AIToolbox/MDP/Algorithms/LinearProgramming.hpp>
 #include <AIToolbox/MDP/Algorithms/Utils/PolicyEvaluation.hpp>
 #include <AIToolbox/MDP/Policies/Policy.hpp>
+#include <optional>
+#include <memory>
 #include "vio.hpp"
 
 using namespace AIToolbox;
@@ -95,6 +97,13 @@ static void runPE(vio::Out & o, const M & m, const Matrix2D & pol, unsigned h, d
     o << var; outV(o, v); outQ(o, q);
 }
 
+// MDP::SparseModel may reject tables whose stored rows (entries <= 1e-6 dropped) are no longer
+// distributions; the other representations are built from the same tables regardless.
+static std::unique_ptr<SparseModel> mkSparse(size_t S, size_t A, const T3 & t, const T3 & r, double gamma) {
+    try { return std::make_unique<SparseModel>(S, A, t, r, gamma); }
+    catch (const std::invalid_argument &) { return nullptr; }
+}
+
 static void outLP(vio::Out & o, const std::tuple<double, ValueFunction, QFunction> & res) {
     o << std::get<0>(res); outV(o, std::get<1>(res).values); o.list(std::get<1>(res).actions); outQ(o, std::get<2>(res));
 }
@@ -130,24 +139,26 @@ static void runSequence(vio::Cursor & c, vio::Out & o) {
         for (size_t s = 0; s < S; ++s) for (size_t a = 0; a < A; ++a) pol1(s, a) = c.nextDouble();
         for (size_t s = 0; s < S; ++s) for (size_t a = 0; a < A; ++a) pol2(s, a) = c.nextDouble();
         Model dense(S, A, t, r, gamma);
-        SparseModel sparse(S, A, t, r, gamma);
+        auto sparse = mkSparse(S, A, t, r, gamma);
         UserModel user(S, A, t, r, gamma);
         QueryOnly qo(dense);
         // ValueIteration: the same object on every representation of every model
-        emitVI(dense); emitVI(sparse); emitVI(user); emitVI(qo);
+        emitVI(dense); o << (bool) sparse; if (sparse) emitVI(*sparse); emitVI(user); emitVI(qo);
         // PolicyEvaluation: one object per (model, representation), reused over two policies
         PolicyEvaluation<Model> peD(dense, h, tol, startValues);
-        PolicyEvaluation<SparseModel> peS(sparse, h, tol, startValues);
+        std::unique_ptr<PolicyEvaluation<SparseModel>> peS;
+        if (sparse) peS = std::make_unique<PolicyEvaluation<SparseModel>>(*sparse, h, tol, startValues);
         PolicyEvaluation<UserModel> peU(user, h, tol, startValues);
         PolicyEvaluation<QueryOnly> peQ(qo, h, tol, startValues);
         for (const Matrix2D * pm : {&pol1, &pol2}) {
             Policy p(*pm);
             auto emitPE = [&](auto & pe) { auto [var, v, q] = pe(p); o << var; outV(o, v); outQ(o, q); };
-            emitPE(peD); emitPE(peS); emitPE(peU); emitPE(peQ);
+            emitPE(peD); o << (bool) sparse; if (sparse) emitPE(*peS); emitPE(peU); emitPE(peQ);
         }
         // PolicyIteration and LinearProgramming: the same objects on the dense and the user model
         outQ(o, pi(dense)); outQ(o, pi(user));
         outLP(o, lp(dense)); outLP(o, lp(user));
+        o << (bool) sparse; if (sparse) outLP(o, lp(*sparse));
     }
 }
 
@@ -166,15 +177,15 @@ int main(int argc, char ** argv) {
             T3 t = readT3(c, S, A), r = readT3(c, S, A);
             std::vector<double> v0 = c.nextDoubles();
             Model dense(S, A, t, r, gamma);
-            SparseModel sparse(S, A, t, r, gamma);
+            auto sparse = mkSparse(S, A, t, r, gamma);
             UserModel user(S, A, t, r, gamma);
             QueryOnly qo(dense);
             if (kind == "vi") {
-                runVI(o, dense, h, tol, v0); runVI(o, sparse, h, tol, v0); runVI(o, user, h, tol, v0); runVI(o, qo, h, tol, v0);
+                runVI(o, dense, h, tol, v0); o << (bool) sparse; if (sparse) runVI(o, *sparse, h, tol, v0); runVI(o, user, h, tol, v0); runVI(o, qo, h, tol, v0);
             } else {
                 Matrix2D pol(S, A);
                 for (size_t s = 0; s < S; ++s) for (size_t a = 0; a < A; ++a) pol(s, a) = c.nextDouble();
-                runPE(o, dense, pol, h, tol, v0); runPE(o, sparse, pol, h, tol, v0); runPE(o, user, pol, h, tol, v0); runPE(o, qo, pol, h, tol, v0);
+                runPE(o, dense, pol, h, tol, v0); o << (bool) sparse; if (sparse) runPE(o, *sparse, pol, h, tol, v0); runPE(o, user, pol, h, tol, v0); runPE(o, qo, pol, h, tol, v0);
             }
         } else if (kind == "solve") {
             // <tol> <horizon> <T> <R>: VI, PI (both with tolerance) and LP on the dense model + LP on the user model
@@ -203,6 +214,17 @@ int main(int argc, char ** argv) {
                 PolicyIteration pi(h, tol);
                 auto q = pi(user);
                 outQ(o, q);
+            }
+            {
+                // LinearProgramming and PolicyIteration on the sparse representation
+                auto sparse = mkSparse(S, A, t, r, gamma);
+                o << (bool) sparse;
+                if (sparse) {
+                    LinearProgramming lp;
+                    outLP(o, lp(*sparse));
+                    PolicyIteration pi(h, tol);
+                    outQ(o, pi(*sparse));
+                }
             }
         } else if (kind == "via") {
             // <h> <tol> <T> <R> <v0 list (size S)> <nacts>: ValueIteration started from a ValueFunction whose
